@@ -1,6 +1,6 @@
 package main
 
-// Generators of the two case families.  All randomness comes from ONE PRNG seeded from
+// Generators of the case families (c14, c16, c16s steered, c16x scope kinds / pip:clear).  All randomness comes from ONE PRNG seeded from
 // VERIF_SEED; the per-case `seed=` field (used by `drive` for its scheduling policy) is drawn
 // from it as well.
 
@@ -638,10 +638,133 @@ func genC16Steered(r *hx.Rand, c *Case, st stats, combo, variant int) map[string
 	return b.caseSt
 }
 
+// ---- c16x: the scope the scripts run in, pip:clear ---------------------------------------------
+
+// The family varies WHERE a case runs, everything else is drawn as in c16 / c16s:
+//
+//	scope kind   round robin over scopeKinds (wire.go): app | new | child | term and the direct variants dapp | dnew |
+//	             dchild | dterm (scripts run one after another by Terminal.RunLoop in the session, sharing its data:
+//	             the first pipeline command of the first script finds no task manager there, the later scripts find
+//	             the one the earlier commands left behind)
+//	graph        (a) a c16 graph (handler subsets x body shapes), (b) 1-3 scripts EACH with a try block (direct kinds:
+//	             a later try in the same session after an earlier one), (c) a steered c16s graph
+//	pip:clear    in half of the cases plain probes `p` of bodies that contain a pipeline command (pip:run / pip:try)
+//	             become `c` — in front of the first pipeline command in 3 of 4, anywhere otherwise —, and now and then
+//	             a probe of a body without one
+//
+// Scripts run directly have no wait lists (there is no manager to ask).
+func genC16X(r *hx.Rand, c *Case, st stats, i int) map[string]bool {
+	c.Scope = scopeKinds[i%len(scopeKinds)]
+	var flags map[string]bool
+	switch x := (i / len(scopeKinds)) % 4; {
+	case x == 3:
+		c.Hold = false
+		flags = genC16Steered(r, c, st, r.Intn(nSteerCombos), r.Intn(3))
+	case x == 2:
+		flags = genTrySeries(r, c, st)
+	default:
+		flags = genC16(r, c, st, r.Intn(nCombos))
+	}
+	if c.direct() {
+		for _, id := range c.Top {
+			c.Tasks[id].Wait = nil
+		}
+	}
+	if r.Chance(1, 2) {
+		nclear := 0
+		for _, t := range c.Tasks {
+			first := -1
+			for k, cmd := range t.Body {
+				if cmd.Kind == 's' || cmd.Kind == 'y' {
+					first = k
+					break
+				}
+			}
+			var cand []int
+			for k, cmd := range t.Body {
+				if cmd.Kind == 'p' {
+					cand = append(cand, k)
+				}
+			}
+			if len(cand) == 0 {
+				continue
+			}
+			switch {
+			case first < 0:
+				if r.Chance(1, 8) {
+					t.Body[cand[r.Intn(len(cand))]] = Cmd{Kind: 'c'}
+					st["clear_in_plain_body"]++
+					nclear++
+				}
+			case r.Chance(3, 4):
+				var before []int
+				for _, k := range cand {
+					if k < first {
+						before = append(before, k)
+					}
+				}
+				if len(before) != 0 {
+					t.Body[before[r.Intn(len(before))]] = Cmd{Kind: 'c'}
+					st["clear_before_first_pipeline_cmd"]++
+					nclear++
+				}
+			default:
+				t.Body[cand[r.Intn(len(cand))]] = Cmd{Kind: 'c'}
+				st["clear_anywhere"]++
+				nclear++
+			}
+		}
+		if nclear != 0 {
+			flags["with_clear"] = true
+		}
+	}
+	flags["scope_"+c.sessionKind()] = true
+	if c.direct() {
+		flags["direct"] = true
+		if len(c.Top) > 1 {
+			flags["direct_several_scripts"] = true
+		}
+	}
+	return flags
+}
+
+// genTrySeries: 1-3 top-level scripts, each `p [g] y<k> p` with its own try block (random handler subset, simple
+// body shape); the scripts have no wait lists.
+func genTrySeries(r *hx.Rand, c *Case, st stats) map[string]bool {
+	b := &builder{r: r, c: c, st: st, caseSt: map[string]bool{}}
+	nTop := 1 + r.Intn(3)
+	tops := make([]*Task, nTop)
+	for i := range tops {
+		tops[i] = b.newTask(RoleTop, 0, 0)
+		c.Top = append(c.Top, tops[i].ID)
+	}
+	for _, t := range tops {
+		t.Body = []Cmd{{Kind: 'p'}}
+		if r.Chance(1, 4) {
+			t.Body = append(t.Body, Cmd{Kind: 'g'})
+		}
+		hs, shape := decodeCombo(r.Intn(nCombos))
+		if shape >= shapeNestedOK {
+			shape = r.Intn(shapeNestedOK)
+		}
+		for j := range hs {
+			// mostly succeeding handlers: a failing one ends the session for the scripts after it
+			if hs[j] == 2 && r.Chance(3, 4) {
+				hs[j] = 1
+			}
+		}
+		y, tb := b.newTry(t, len(t.Body), hs)
+		b.fillTryBody(tb, shape)
+		t.Body = append(t.Body, Cmd{Kind: 'y', Arg: y.K}, Cmd{Kind: 'p'})
+	}
+	b.flag("try_series")
+	return b.caseSt
+}
+
 // ---- driver of the generators --------------------------------------------------------------
 
 func gen(w io.Writer, family string, n int) error {
-	if family != "c14" && family != "c16" && family != "c16s" {
+	if family != "c14" && family != "c16" && family != "c16s" && family != "c16x" {
 		return fmt.Errorf("unknown family %q", family)
 	}
 	seed := hx.SeedFromEnv()
@@ -653,6 +776,8 @@ func gen(w io.Writer, family string, n int) error {
 		c := &Case{ID: fmt.Sprintf("%s-%d-%d", family, seed, i), Seed: r.U64(), Hold: r.Chance(1, 2)}
 		var flags map[string]bool
 		switch {
+		case family == "c16x":
+			flags = genC16X(r, c, st, i)
 		case family == "c16s":
 			// every combination once per round, rounds differ in the random details
 			c.Hold = false
